@@ -274,13 +274,14 @@ func main() {
 				sort.Strings(f)
 				return strings.Join(f, " ")
 			}
-			c.Bound("age -o out (-r ... | -R file) for every list of 1..3 recipients over %d kinds {x25519, ssh-ed25519, plugin without labels, two plugins declaring {postquantum}, plugins declaring {a,b} and {b,a}} (scripted plugins on a private PATH): exit 0 with one stanza per recipient iff all label sets are equal, otherwise non-zero exit and no output file", len(cks))
+			c.Bound("age [-a] -o out (-r ... | -R file) for every list of 1..3 recipients over %d kinds {x25519, ssh-ed25519, plugin without labels, two plugins declaring {postquantum}, plugins declaring {a,b} and {b,a}} (scripted plugins on a private PATH): exit 0 with one stanza per recipient iff all label sets are equal, otherwise non-zero exit and no output file", len(cks))
 			os.WriteFile(filepath.Join(work, "in"), []byte("cli labels"), 0o600)
 			n := 0
 			var recc func(cur []int)
 			recc = func(cur []int) {
 				if len(cur) > 0 {
-					for _, viaFile := range []bool{false, true} {
+					for vi := 0; vi < 4; vi++ {
+						viaFile, armored := vi&1 == 1, vi&2 == 2
 						n++
 						if !c.MineKey(n) {
 							continue
@@ -299,7 +300,7 @@ func main() {
 								args = append(args, "-r", cks[ki].arg)
 							}
 						}
-						id := fmt.Sprintf("cli.%s.file%v", strings.Join(names, ","), viaFile)
+						id := fmt.Sprintf("cli.%s.file%v.armor%v", strings.Join(names, ","), viaFile, armored)
 						if c.Replaying() && !c.Want(id) {
 							continue
 						}
@@ -309,6 +310,9 @@ func main() {
 						}
 						outp := filepath.Join(work, "out.age")
 						os.Remove(outp)
+						if armored {
+							args = append(args, "-a")
+						}
 						cmd := exec.Command(ageBin, append(args, "-o", "out.age", "in")...)
 						cmd.Dir = work
 						cmd.Env = append(os.Environ(), "PATH="+pathDir, "VERIF_PLUGIN_SCRIPT_DIR="+pathDir, "VERIF_PLUGIN_SCRIPT=", "VERIF_PLUGIN_LOG=", "VERIF_PLUGIN_EXECLOG=", "AGEDEBUG=")
@@ -318,11 +322,14 @@ func main() {
 						c.Eval(1)
 						c.DistinctOnce(ev.HashStr(id))
 						out, ferr := os.ReadFile(outp)
-						det := map[string]interface{}{"recipients": names, "via_recipients_file": viaFile, "exit": fmt.Sprint(rerr), "stderr": ev.Clip(stderr.String(), 300), "output_bytes": len(out)}
+						det := map[string]interface{}{"recipients": names, "via_recipients_file": viaFile, "armor": armored, "exit": fmt.Sprint(rerr), "stderr": ev.Clip(stderr.String(), 300), "output_bytes": len(out)}
 						switch {
 						case wantOK && rerr != nil:
 							c.Fail("equal-label-sets-refused/cli", id, "age refuses recipients that all declare the same label set", det)
 						case wantOK:
+							if armored {
+								out, _ = lab.Dearmor(out)
+							}
 							h, _, perr := refage.ParseHeader(out)
 							if perr != nil || len(h.Stanzas) != len(cur) {
 								c.Fail("accepted-file-does-not-decrypt/cli", id, "output does not carry one stanza per recipient", det)
